@@ -208,7 +208,7 @@ def _representations(which):
         os.makedirs(env["HOME"], exist_ok=True)
 
         def run(name, bams, genedb, extra=()):
-            cmd = [sys.executable, os.path.join(front.REPO, "isoquant.py"), "-d", "nanopore", "--bam"] + bams + \
+            cmd = [sys.executable, os.path.join(front.REPO, "isoquant.py"), "-d", "nanopore"] + (bams if bams[0] == "--yaml" else ["--bam"] + bams) + \
                   ["-r", "chr9.4M.fa.gz", "-o", name, "-t", "1", "-p", "S", "--genedb", genedb, "--no_model_construction"] + list(extra)
             p = subprocess.run(cmd, cwd=d, env=env, capture_output=True, text=True, timeout=900)
             if p.returncode != 0:
@@ -234,6 +234,16 @@ def _representations(which):
         if "split_by_flag" in which:
             bases["split_by_flag"] = run("flagged", ["flagged.bam"], "chr9.4M.gtf.gz", ["--complete_genedb"])
             variants["split_by_flag"] = run("byflag", ["flag_clear.bam", "flag_set.bam"], "chr9.4M.gtf.gz", ["--complete_genedb"])
+        if "yaml_same_names" in which:
+            # the two parts as per-run folders with one file name, listed in a YAML - once as they are, once under one shared label
+            for k, sub in enumerate(("runA", "runB")):
+                os.makedirs(os.path.join(d, sub), exist_ok=True)
+                for ext in ("", ".bai"):
+                    shutil.copy(os.path.join(d, "part%d.bam%s" % (k + 1, ext)), os.path.join(d, sub, "reads.bam" + ext))
+            for name, labels in (("same_base_name", ""), ("same_label", ',\n    labels: ["flowcell1", "flowcell1"]')):
+                with open(os.path.join(d, name + ".yaml"), "w") as f:
+                    f.write('[\n  data format: "bam",\n  {\n    name: "S",\n    long read files: [\n      "runA/reads.bam",\n      "runB/reads.bam"\n    ]%s\n  }\n]\n' % labels)
+                variants["yaml_" + name] = run("y" + name, ["--yaml", name + ".yaml"], "chr9.4M.gtf.gz", ["--complete_genedb"])
         if "replaced_gz" in which:
             # history in one output folder: a run with an annotation file, the file replaced by another release under the same name,
             # a second run into the same folder - it must equal a fresh run with the new release
@@ -274,7 +284,7 @@ def _representations(which):
                 if ref[fn] is None or v[fn] is None:
                     continue
                 a, b = ref[fn], v[fn]
-                if vname in ("split_bam", "empty_first_bam", "empty_last_bam", "split_by_flag") and fn.startswith("S.read_assignments"):
+                if (vname in ("split_bam", "empty_first_bam", "empty_last_bam", "split_by_flag") or vname.startswith("yaml_")) and fn.startswith("S.read_assignments"):
                     # the file label column may differ; compare read id, isoform, type, exons
                     key = lambda l: tuple(l.split("\t")[:8])
                     a, b = sorted(map(key, a)), sorted(map(key, b))
@@ -291,13 +301,13 @@ def replay_repr(d):
 
 
 @bounded("C12.representations", ["C12"], note="real pipeline runs on the bundled chr9 data: the same alignments as one BAM, split over two "
-         "BAMs, accompanied by a BAM without a single record (first or last in the list), or split by the duplicate / QC-fail flag bits (thorough: also a second run into the same output folder after the gzipped annotation was replaced by another release under the same name, against a fresh run), the annotation gzipped or plain (thorough: also as the pre-built gffutils database and with inferred genes/transcripts) "
+         "BAMs, accompanied by a BAM without a single record (first or last in the list), split by the duplicate / QC-fail flag bits, or given as two files of one name in two folders through a YAML (with and without a shared label) (thorough: also a second run into the same output folder after the gzipped annotation was replaced by another release under the same name, against a fresh run), the annotation gzipped or plain (thorough: also as the pre-built gffutils database and with inferred genes/transcripts) "
          "must give identical read assignments, corrected alignments and ungrouped reference-based tables (as multisets of records)")
 def c12_repr(tier, rng):
-    which = ["split_bam", "empty_first_bam", "split_by_flag", "plain_gtf"] if tier == "quick" else ["split_bam", "empty_first_bam", "empty_last_bam", "split_by_flag", "replaced_gz", "plain_gtf", "inferred", "prebuilt_db"]
+    which = ["split_bam", "empty_first_bam", "split_by_flag", "yaml_same_names", "plain_gtf"] if tier == "quick" else ["split_bam", "empty_first_bam", "empty_last_bam", "split_by_flag", "yaml_same_names", "replaced_gz", "plain_gtf", "inferred", "prebuilt_db"]
     p = _representations(which)
     viol = []
     if p:
         viol.append({"obligation": "C12.representations", "inputs": {"which": which}, "observed": p[:4],
                      "required": "identical outputs", "replay_call": "contracts.c_inputs:replay_repr"})
-    return {"cases": len(which) + 1 + ("split_by_flag" in which) + 2 * ("replaced_gz" in which), "bound": "bundled chr9 data; variants %s" % which, "violations": viol, "samples": [{"variants": which}]}
+    return {"cases": len(which) + 1 + ("split_by_flag" in which) + 2 * ("replaced_gz" in which) + ("yaml_same_names" in which), "bound": "bundled chr9 data; variants %s" % which, "violations": viol, "samples": [{"variants": which}]}
